@@ -59,7 +59,7 @@ def main():
         print(json.dumps(res, indent=1))
         return 2
     try:
-        rcv, outv = sh('./bin/vcheck all', cwd=VERIF)
+        rcv, outv = sh('./bin/vcheck all --no-evidence', cwd=VERIF)
     finally:
         sh('git -C /repo checkout -- .')
     viol = {}
